@@ -300,6 +300,7 @@ type c18Eng struct {
 	got      []c18Got
 	commits  []c18Commit
 	calls    int
+	steps    int // Apply+Skip callbacks only: Commit callbacks can also come from the code's 500 ms wall-clock timers
 	maxCalls int
 	aborted  bool
 	// payload check: every Apply payload must be a prefix of the log bytes at the current position
@@ -327,6 +328,7 @@ func (e *c18Eng) Apply(payload []byte) (int64, error) {
 	if !e.tick() {
 		return e.pos, errC18Abort
 	}
+	e.steps++
 	if len(payload) < 4 {
 		return e.pos, binlog.ErrorNotEnoughData
 	}
@@ -357,6 +359,7 @@ func (e *c18Eng) Skip(n int64) (int64, error) {
 	if !e.tick() {
 		return e.pos, errC18Abort
 	}
+	e.steps++
 	e.pos += n
 	return e.pos, nil
 }
@@ -610,7 +613,7 @@ func c18Write(h c18Hist) *c18Written {
 			}
 			w.violate("run-error", "Run(from=%d) ended before the writer became ready: %v", from, err)
 			w.Commits = append(w.Commits, eng.commits...)
-			w.Calls += int64(eng.calls)
+			w.Calls += int64(eng.steps)
 			return w
 		}
 		if !s.ready {
@@ -682,7 +685,7 @@ func c18Write(h c18Hist) *c18Written {
 					}
 					w.violate("run-error", "Run ended while a commit of %d was awaited: %v", target, err)
 					w.Commits = append(w.Commits, eng.commits...)
-					w.Calls += int64(eng.calls)
+					w.Calls += int64(eng.steps)
 					return w
 				}
 				if s.rotating {
@@ -718,7 +721,7 @@ func c18Write(h c18Hist) *c18Written {
 			}
 			eng.resume <- struct{}{}
 		}
-		w.Calls += int64(eng.calls)
+		w.Calls += int64(eng.steps)
 		// ---- commit clause for this session
 		prev := int64(-1)
 		for ci, c := range eng.commits {
@@ -832,7 +835,7 @@ func (r *c18Replayer) run(from int64, meta []byte, img *c18Image) (res c18Res) {
 			}
 			res.Panic = fmt.Sprintf("%v at %s", p, site)
 		}
-		res.Got, res.Pos, res.Commits, res.Aborted, res.BadPay, res.Calls = eng.got, eng.pos, eng.commits, eng.aborted, eng.badPayload, eng.calls
+		res.Got, res.Pos, res.Commits, res.Aborted, res.BadPay, res.Calls = eng.got, eng.pos, eng.commits, eng.aborted, eng.badPayload, eng.steps
 	}()
 	bl, err := NewFsBinlog(&binlog.EmptyLogger{}, r.opts)
 	if err != nil {
@@ -923,6 +926,13 @@ type c18Ctx struct {
 	truncs  atomic.Int64
 	resumes atomic.Int64
 	during  atomic.Int64 // batches appended while the writer was inside rotate()
+	lateMu  sync.Mutex
+	late    []c18Late
+}
+
+type c18Late struct {
+	key string
+	f   func()
 }
 
 func (c *c18Ctx) report(w *c18Written, sig, desc string, extra map[string]any) {
@@ -949,6 +959,14 @@ func (c *c18Ctx) report(w *c18Written, sig, desc string, extra map[string]any) {
 	}
 	for k, v := range extra {
 		d[k] = v
+	}
+	if strings.HasPrefix(sig, "C18:truncated-header-") {
+		// findings about a last file cut inside its header are emitted after everything else, so that a
+		// different violation is never crowded out of the driver's short list by them
+		c.lateMu.Lock()
+		c.late = append(c.late, c18Late{key: fmt.Sprintf("%s/%02d/%s", sig, len(w.H.Sizes), w.H.String()+": "+desc), f: func() { c.rep.Violate(sig, w.H.String()+": "+desc, d) }})
+		c.lateMu.Unlock()
+		return
 	}
 	c.rep.Violate(sig, w.H.String()+": "+desc, d)
 }
@@ -1168,11 +1186,7 @@ func (c *c18Ctx) damage(w *c18Written, doTrunc bool, flipLo, flipHi int64) {
 					c.rtUndet.Add(1)
 				}
 				outcomes["flip/uncovered/"+out] = struct{}{}
-				if c18Dump != nil {
-					c18DumpMu.Lock()
-					c18Dump = append(c18Dump, fmt.Sprintf("%s f%d b%d %s err=%v pos=%d", w.H.String(), fi, p, out, res.Err, res.Pos))
-					c18DumpMu.Unlock()
-				}
+
 			}
 		}
 		r.put(f.Name, f.Data)
@@ -1240,7 +1254,7 @@ func c18Seqs(alpha []int, minLen, maxLen int) [][]int {
 // c18CutPatterns: all 2^(n-1) batchings when n <= fullUpTo, otherwise those with at most maxBoundaries batch
 // boundaries plus the all-singletons one; then, when restarts are wanted, the all-same and all-batch patterns with one
 // position replaced by each reopen kind.
-func c18CutPatterns(n, fullUpTo, maxBoundaries int, restarts bool) [][]int {
+func c18CutPatterns(n, fullUpTo, maxBoundaries int, restarts, during bool) [][]int {
 	var out [][]int
 	if n == 1 {
 		return [][]int{{}}
@@ -1267,7 +1281,7 @@ func c18CutPatterns(n, fullUpTo, maxBoundaries int, restarts bool) [][]int {
 			out = append(out, cuts)
 		}
 	}
-	if restarts {
+	if during {
 		for j := 0; j < n-1; j++ {
 			for _, base := range []int{c18CutSame, c18CutBatch} {
 				cuts := make([]int, n-1)
@@ -1278,6 +1292,8 @@ func c18CutPatterns(n, fullUpTo, maxBoundaries int, restarts bool) [][]int {
 				out = append(out, cuts)
 			}
 		}
+	}
+	if restarts {
 		for _, base := range []int{c18CutSame, c18CutBatch} {
 			for j := 0; j < n-1; j++ {
 				for _, kind := range []int{c18CutReopen0, c18CutReopenL, c18CutReopenF} {
@@ -1300,18 +1316,16 @@ func TestVerifC18(t *testing.T) {
 	// Performance only: the real writer/reader allocate 64 KiB..1 MiB of zeroed buffers per run while the live heap
 	// is tiny, so the default pacer would run a GC cycle every few runs. An untouched (never resident) ballast
 	// raises the heap goal; freed spans are reused warm instead of being returned to the OS.
-	if os.Getenv("C18_DUMP") != "" {
-		c18Dump = []string{}
-	}
 	ballast := make([]byte, 192<<20)
 	defer runtime.KeepAlive(ballast)
 	maxLen := mc.Pick(6, 8)      // payload sequences
 	fullCuts := mc.Pick(4, 6)    // all 2^(n-1) batchings up to this length
-	maxBound := mc.Pick(1, 2)    // longer sequences: every batching with at most this many batch boundaries (+ all singletons)
-	tailUpTo := mc.Pick(4, 6)    // un-ASAP tail variant for every batching up to this length (above: the two extreme batchings)
-	restartUpTo := mc.Pick(4, 6) // writer reopen patterns up to this length
-	truncUpTo := mc.Pick(4, 7)   // truncation of the last file at every byte
-	flipUpTo := mc.Pick(4, 6)    // bit flip at every byte of every file
+	maxBound := mc.Pick(1, 0)    // longer sequences: every batching with at most this many batch boundaries (+ all singletons)
+	tailUpTo := mc.Pick(4, 5)    // un-ASAP tail variant for every batching up to this length (above: the two extreme batchings)
+	restartUpTo := mc.Pick(4, 5) // writer reopen patterns up to this length
+	duringUpTo := mc.Pick(5, 6)  // append-while-the-writer-is-inside-rotate patterns up to this length
+	truncUpTo := mc.Pick(4, 6)   // truncation of the last file at every byte
+	flipUpTo := mc.Pick(4, 5)    // bit flip at every byte of every file
 	bigLen := mc.Pick(2, 3)
 	bigTruncMax := mc.Pick(int64(4096), int64(1<<30)) // crc family: truncate the last file at every byte when it is at most this long
 	bigAlpha := mc.Pick([]int{0, c18BigIdx}, []int{0, 2, c18BigIdx})
@@ -1325,7 +1339,7 @@ func TestVerifC18(t *testing.T) {
 	rep.Bounds["sequence_length"] = fmt.Sprintf("1..%d", maxLen)
 	rep.Bounds["batchings"] = fmt.Sprintf("all 2^(n-1) for n<=%d, above: every batching with <=%d boundaries, and all singletons; last event ASAP, and (all batchings n<=%d, the two extreme batchings above) last event committed by shutdown only", fullCuts, maxBound, tailUpTo)
 	rep.Bounds["restarts"] = fmt.Sprintf("one writer reopen (from 0 / from last commit+meta / from the session's first commit+meta) at every cut of the one-batch and all-singleton batchings, n<=%d", restartUpTo)
-	rep.Bounds["append_during_write"] = "same lengths as restarts: at every cut of the two extreme batchings the next batch is appended while the writer goroutine is inside rotate() with the current buffer half written (the only point of writeBuffer reachable through the FS interface)"
+	rep.Bounds["append_during_write"] = fmt.Sprintf("n<=%d: ", duringUpTo) + "at every cut of the two extreme batchings the next batch is appended while the writer goroutine is inside rotate() with the current buffer half written (the only point of writeBuffer reachable through the FS interface)"
 	rep.Bounds["resume"] = "from every distinct commit notification (offset, meta) of every history"
 	rep.Bounds["truncation"] = fmt.Sprintf("last file at every byte, every sequence of length <=%d, and crc-family logs whose last file has <=%d bytes", truncUpTo, bigTruncMax)
 	rep.Bounds["bit_flips"] = fmt.Sprintf("bit (p mod 8) of every byte p of every file, every sequence of length <=%d and the whole crc family", flipUpTo)
@@ -1361,7 +1375,7 @@ func TestVerifC18(t *testing.T) {
 					}
 					n := len(seq)
 					var base *c18Written
-					for pi, cuts := range c18CutPatterns(n, fullCuts, maxBound, n <= restartUpTo) {
+					for pi, cuts := range c18CutPatterns(n, fullCuts, maxBound, n <= restartUpTo, n <= duringUpTo) {
 						hasRestart := false
 						ones := 0
 						for _, c := range cuts {
@@ -1429,7 +1443,7 @@ func TestVerifC18(t *testing.T) {
 			tasks = append(tasks, func() {
 				n := len(seq)
 				var base *c18Written
-				for pi, cuts := range c18CutPatterns(n, 4, 2, true) {
+				for pi, cuts := range c18CutPatterns(n, 4, 2, true, true) {
 					w := ctx.writeAndReplay(c18Hist{Chunk: chunk, Sizes: seq, Cuts: cuts})
 					if pi == 0 {
 						base = w
@@ -1491,9 +1505,9 @@ func TestVerifC18(t *testing.T) {
 		phase("small>4")
 	}
 
-	if c18Dump != nil {
-		sort.Strings(c18Dump)
-		_ = os.WriteFile(os.Getenv("C18_DUMP"), []byte(strings.Join(c18Dump, "\n")), 0644)
+	sort.Slice(ctx.late, func(i, j int) bool { return ctx.late[i].key < ctx.late[j].key }) // shortest history first, deterministic
+	for _, l := range ctx.late {
+		l.f() // the report keeps 3 examples per signature
 	}
 	if capped.Load() {
 		rep.Cap("wall_budget")
@@ -1509,9 +1523,6 @@ func TestVerifC18(t *testing.T) {
 	t.Logf("C18: executions=%d callbacks=%d histories=%d covered flips=%d (crc error %d, earlier %d) truncations=%d resumes=%d violations=%d",
 		ctx.execs.Load(), ctx.trans.Load(), ctx.states.Load(), ctx.covered.Load(), ctx.caught.Load(), ctx.earlier.Load(), ctx.truncs.Load(), ctx.resumes.Load(), rep.NumViolations())
 }
-
-var c18Dump []string
-var c18DumpMu sync.Mutex
 
 func c18Head(s []string, n int) []string {
 	if len(s) > n {
